@@ -835,6 +835,15 @@ fn filler(r: &mut Rng) -> Tm {
     }
 }
 
+fn filler_nounion(r: &mut Rng) -> Tm {
+    match r.below(4) {
+        0 => Tm::Int,
+        1 => Tm::Bin,
+        2 => Tm::Tuple(None, vec![]),
+        _ => Tm::Ref,
+    }
+}
+
 /// One near-miss edit somewhere in the term; keeps closedness and contractiveness (new sub-terms
 /// are closed cycle-free fillers, boundaries are never added above a `Cycle` or removed).
 pub fn mutate(t: &Tm, r: &mut Rng) -> Tm {
@@ -849,6 +858,18 @@ pub fn mutate(t: &Tm, r: &mut Rng) -> Tm {
                 return Tm::Tuple(name.clone(), fs);
             }
             let mut fs = fields.clone();
+            if fs.len() >= 2 && r.chance(1, 6) {
+                // swapped pair: exchange the TYPES of two fields (labels stay)
+                let i = r.usize(fs.len());
+                let mut j = r.usize(fs.len());
+                if i == j {
+                    j = (i + 1) % fs.len();
+                }
+                let t = fs[i].1.clone();
+                fs[i].1 = fs[j].1.clone();
+                fs[j].1 = t;
+                return Tm::Tuple(name.clone(), fs);
+            }
             match r.below(8) {
                 0 => Tm::Tuple(if name.is_some() { None } else { Some("A".into()) }, fs),
                 1 => Tm::Tuple(Some(if name.as_deref() == Some("A") { "B".into() } else { "A".into() }), fs),
@@ -947,6 +968,25 @@ pub fn mutate(t: &Tm, r: &mut Rng) -> Tm {
                 return Tm::Union(ws);
             }
             let mut ws = vs.clone();
+            if r.chance(1, 5) {
+                // add a variant with the same name as an existing tuple variant but another arity
+                let tuples: Vec<usize> = ws.iter().enumerate().filter(|(_, w)| matches!(w, Tm::Tuple(_, _))).map(|(i, _)| i).collect();
+                if !tuples.is_empty() {
+                    let i = *r.pick(&tuples);
+                    if let Tm::Tuple(n, fs) = ws[i].clone() {
+                        let mut gs = fs.clone();
+                        if !gs.is_empty() && r.chance(1, 2) {
+                            let k = r.usize(gs.len());
+                            gs.remove(k);
+                        } else {
+                            let k = r.usize(gs.len() + 1);
+                            gs.insert(k, (None, filler_nounion(r)));
+                        }
+                        if r.chance(1, 2) { ws.push(Tm::Tuple(n, gs)) } else { ws.insert(i, Tm::Tuple(n, gs)) }
+                        return Tm::Union(ws);
+                    }
+                }
+            }
             match r.below(5) {
                 0 if ws.len() > 1 => {
                     let i = r.usize(ws.len());
@@ -970,6 +1010,7 @@ pub fn mutate(t: &Tm, r: &mut Rng) -> Tm {
             }
             Tm::Union(ws)
         }
+        Tm::Fn(a, b, c) if r.chance(1, 5) => Tm::Fn(b.clone(), a.clone(), c.clone()),
         Tm::Fn(a, b, c) => match r.below(3) {
             0 => Tm::Fn(Box::new(mutate(a, r)), b.clone(), c.clone()),
             1 => Tm::Fn(a.clone(), Box::new(mutate(b, r)), c.clone()),
@@ -1019,7 +1060,28 @@ pub fn gen_recursive_template(r: &mut Rng) -> Tm {
         _ => Tm::Tuple(None, vec![]),
     };
     let t = |n: &str, fs: Vec<Tm>| Tm::Tuple(Some(n.into()), fs.into_iter().map(|f| (None, f)).collect());
-    match r.below(9) {
+    match r.below(14) {
+        // list with same-name variants of different arity
+        9 => Tm::Union(vec![t("Nil", vec![]), t("Cons", vec![e1.clone(), Tm::Cycle(1)]), t("Cons", vec![e1, e2, Tm::Cycle(1)])]),
+        // same, the recursive reference in another position / the short variant not recursive
+        10 => Tm::Union(vec![t("Cons", vec![e1.clone()]), t("Cons", vec![Tm::Cycle(1), e1])]),
+        // a function from a union to the same union (parameter and result share the id)
+        11 => {
+            let u = if r.chance(1, 2) { Tm::Union(vec![e1, e2]) } else { Tm::Union(vec![t("Nil", vec![]), t("Cons", vec![e1, Tm::Cycle(1)])]) };
+            Tm::Fn(Box::new(u.clone()), Box::new(u), Box::new(Tm::Never))
+        }
+        // a pair of two different unions (its swapped twin comes from the `swap` mutation)
+        12 => {
+            let u1 = Tm::Union(vec![e1.clone(), t("Nil", vec![])]);
+            let u2 = Tm::Union(vec![e1, e2, t("Nil", vec![])]);
+            Tm::Tuple(Some("P".into()), vec![(None, u1), (None, u2)])
+        }
+        // a pair of two recursive lists with different element types
+        13 => {
+            let l1 = Tm::Union(vec![t("Nil", vec![]), t("Cons", vec![e1, Tm::Cycle(1)])]);
+            let l2 = Tm::Union(vec![t("Nil", vec![]), t("Cons", vec![e2, Tm::Cycle(1)])]);
+            Tm::Tuple(None, vec![(None, l1), (None, l2)])
+        }
         // list
         0 => Tm::Union(vec![t("Nil", vec![]), t("Cons", vec![e1, Tm::Cycle(1)])]),
         // list with the variants the other way round
@@ -1051,5 +1113,95 @@ pub fn gen_recursive_template(r: &mut Rng) -> Tm {
             Tm::Tuple(None, vec![]),
             Tm::Tuple(Some("Cons".into()), vec![(Some("x".into()), e1), (Some("y".into()), Tm::Cycle(1))]),
         ]),
+    }
+}
+
+// ---------------------------------------------------------------------------------------------
+// Model driver client with a per-request time limit (the shared `qverif::Model` blocks forever;
+// an implementation result the model cannot digest in time must not stall the whole check, and a
+// driver left spinning would outlive the harness).
+// ---------------------------------------------------------------------------------------------
+
+pub struct TModel {
+    path: std::path::PathBuf,
+    child: std::process::Child,
+    stdin: std::process::ChildStdin,
+    rx: std::sync::mpsc::Receiver<String>,
+    /// the request that established the current table (re-sent after a restart)
+    pub table_line: String,
+    pub requests: u64,
+    pub timeouts: u64,
+}
+
+impl TModel {
+    fn start(path: &std::path::Path) -> (std::process::Child, std::process::ChildStdin, std::sync::mpsc::Receiver<String>) {
+        use std::io::BufRead;
+        let mut child = std::process::Command::new(path)
+            .stdin(std::process::Stdio::piped())
+            .stdout(std::process::Stdio::piped())
+            .stderr(std::process::Stdio::inherit())
+            .spawn()
+            .unwrap_or_else(|e| panic!("cannot start model driver {}: {e}", path.display()));
+        let stdin = child.stdin.take().unwrap();
+        let stdout = child.stdout.take().unwrap();
+        let (tx, rx) = std::sync::mpsc::channel();
+        std::thread::spawn(move || {
+            for l in std::io::BufReader::new(stdout).lines() {
+                let Ok(l) = l else { break };
+                if tx.send(l).is_err() {
+                    break;
+                }
+            }
+        });
+        (child, stdin, rx)
+    }
+    pub fn spawn(path: &std::path::Path) -> TModel {
+        let (child, stdin, rx) = Self::start(path);
+        TModel { path: path.to_path_buf(), child, stdin, rx, table_line: String::new(), requests: 0, timeouts: 0 }
+    }
+    fn restart(&mut self) {
+        let _ = self.child.kill();
+        let _ = self.child.wait();
+        let (child, stdin, rx) = Self::start(&self.path);
+        self.child = child;
+        self.stdin = stdin;
+        self.rx = rx;
+        if !self.table_line.is_empty() {
+            let l = self.table_line.clone();
+            let _ = self.raw(&l, 30);
+        }
+    }
+    fn raw(&mut self, line: &str, timeout_s: u64) -> Option<String> {
+        use std::io::Write;
+        self.stdin.write_all(line.as_bytes()).ok()?;
+        self.stdin.write_all(b"\n").ok()?;
+        self.stdin.flush().ok()?;
+        self.rx.recv_timeout(std::time::Duration::from_secs(timeout_s)).ok()
+    }
+    /// one request, one answer; `model-timeout` when the driver does not answer in `timeout_s`
+    /// seconds (it is then killed and restarted on the current table).
+    pub fn ask_t(&mut self, line: &str, timeout_s: u64) -> String {
+        self.requests += 1;
+        if line.starts_with("(table") {
+            self.table_line = line.to_string();
+        }
+        match self.raw(line, timeout_s) {
+            Some(l) => l,
+            None => {
+                self.timeouts += 1;
+                self.restart();
+                "model-timeout".to_string()
+            }
+        }
+    }
+    pub fn ask(&mut self, line: &str) -> String {
+        self.ask_t(line, 15)
+    }
+}
+
+impl Drop for TModel {
+    fn drop(&mut self) {
+        let _ = self.child.kill();
+        let _ = self.child.wait();
     }
 }
